@@ -128,12 +128,21 @@ type runner[K keyC, V any] struct {
 var dicts = map[string]dict{}
 var keyTypes []string
 
+// regK registers HashmapE[K, V] for all four value types; regKU32 only for Uint32 values (the integer widths that are
+// sampled less often: every UintN / IntN is instantiated at least once).
 func regK[K keyC](name string, kc keyCodec[K]) {
 	keyTypes = append(keyTypes, name)
 	dicts[name+"/U32"] = runner[K, tlb.Uint32]{kc, u32Codec}
 	dicts[name+"/B256"] = runner[K, tlb.Bits256]{kc, b256Codec}
 	dicts[name+"/P"] = runner[K, Payload]{kc, pCodec}
 	dicts[name+"/R"] = runner[K, tlb.Ref[Payload]]{kc, rCodec}
+}
+
+var u32OnlyKeyTypes []string
+
+func regKU32[K keyC](name string, kc keyCodec[K]) {
+	u32OnlyKeyTypes = append(u32OnlyKeyTypes, name)
+	dicts[name+"/U32"] = runner[K, tlb.Uint32]{kc, u32Codec}
 }
 
 type uintKey interface {
@@ -145,15 +154,18 @@ type intKey interface {
 	keyC
 }
 
-func regU[K uintKey](n int) {
-	regK[K](fmt.Sprintf("u%d", n), keyCodec[K]{
+func uintCodec[K uintKey]() keyCodec[K] {
+	return keyCodec[K]{
 		parse: func(s string) K { return K(u64c(s)) },
 		show:  func(k K) string { return strconv.FormatUint(uint64(k), 10) },
-	})
+	}
 }
 
-func regI[K intKey](n int) {
-	regK[K](fmt.Sprintf("i%d", n), keyCodec[K]{
+func regU[K uintKey](n int)  { regK[K](fmt.Sprintf("u%d", n), uintCodec[K]()) }
+func regU1[K uintKey](n int) { regKU32[K](fmt.Sprintf("u%d", n), uintCodec[K]()) }
+
+func intCodec[K intKey]() keyCodec[K] {
+	return keyCodec[K]{
 		parse: func(s string) K {
 			v, err := strconv.ParseInt(s, 10, 64)
 			if err != nil {
@@ -162,8 +174,11 @@ func regI[K intKey](n int) {
 			return K(v)
 		},
 		show: func(k K) string { return strconv.FormatInt(int64(k), 10) },
-	})
+	}
 }
+
+func regI[K intKey](n int)  { regK[K](fmt.Sprintf("i%d", n), intCodec[K]()) }
+func regI1[K intKey](n int) { regKU32[K](fmt.Sprintf("i%d", n), intCodec[K]()) }
 
 func init() {
 	regU[tlb.Uint1](1)
@@ -194,6 +209,106 @@ func init() {
 	regI[tlb.Int33](33)
 	regI[tlb.Int63](63)
 	regI[tlb.Int64](64)
+	regU1[tlb.Uint4](4)
+	regU1[tlb.Uint5](5)
+	regU1[tlb.Uint6](6)
+	regU1[tlb.Uint10](10)
+	regU1[tlb.Uint11](11)
+	regU1[tlb.Uint12](12)
+	regU1[tlb.Uint13](13)
+	regU1[tlb.Uint14](14)
+	regU1[tlb.Uint18](18)
+	regU1[tlb.Uint19](19)
+	regU1[tlb.Uint20](20)
+	regU1[tlb.Uint21](21)
+	regU1[tlb.Uint22](22)
+	regU1[tlb.Uint23](23)
+	regU1[tlb.Uint24](24)
+	regU1[tlb.Uint25](25)
+	regU1[tlb.Uint26](26)
+	regU1[tlb.Uint27](27)
+	regU1[tlb.Uint28](28)
+	regU1[tlb.Uint29](29)
+	regU1[tlb.Uint30](30)
+	regU1[tlb.Uint34](34)
+	regU1[tlb.Uint35](35)
+	regU1[tlb.Uint36](36)
+	regU1[tlb.Uint37](37)
+	regU1[tlb.Uint38](38)
+	regU1[tlb.Uint39](39)
+	regU1[tlb.Uint40](40)
+	regU1[tlb.Uint41](41)
+	regU1[tlb.Uint42](42)
+	regU1[tlb.Uint43](43)
+	regU1[tlb.Uint44](44)
+	regU1[tlb.Uint45](45)
+	regU1[tlb.Uint46](46)
+	regU1[tlb.Uint47](47)
+	regU1[tlb.Uint48](48)
+	regU1[tlb.Uint49](49)
+	regU1[tlb.Uint50](50)
+	regU1[tlb.Uint51](51)
+	regU1[tlb.Uint52](52)
+	regU1[tlb.Uint53](53)
+	regU1[tlb.Uint54](54)
+	regU1[tlb.Uint55](55)
+	regU1[tlb.Uint56](56)
+	regU1[tlb.Uint57](57)
+	regU1[tlb.Uint58](58)
+	regU1[tlb.Uint59](59)
+	regU1[tlb.Uint60](60)
+	regU1[tlb.Uint61](61)
+	regU1[tlb.Uint62](62)
+	regI1[tlb.Int4](4)
+	regI1[tlb.Int5](5)
+	regI1[tlb.Int6](6)
+	regI1[tlb.Int10](10)
+	regI1[tlb.Int11](11)
+	regI1[tlb.Int12](12)
+	regI1[tlb.Int13](13)
+	regI1[tlb.Int14](14)
+	regI1[tlb.Int18](18)
+	regI1[tlb.Int19](19)
+	regI1[tlb.Int20](20)
+	regI1[tlb.Int21](21)
+	regI1[tlb.Int22](22)
+	regI1[tlb.Int23](23)
+	regI1[tlb.Int24](24)
+	regI1[tlb.Int25](25)
+	regI1[tlb.Int26](26)
+	regI1[tlb.Int27](27)
+	regI1[tlb.Int28](28)
+	regI1[tlb.Int29](29)
+	regI1[tlb.Int30](30)
+	regI1[tlb.Int34](34)
+	regI1[tlb.Int35](35)
+	regI1[tlb.Int36](36)
+	regI1[tlb.Int37](37)
+	regI1[tlb.Int38](38)
+	regI1[tlb.Int39](39)
+	regI1[tlb.Int40](40)
+	regI1[tlb.Int41](41)
+	regI1[tlb.Int42](42)
+	regI1[tlb.Int43](43)
+	regI1[tlb.Int44](44)
+	regI1[tlb.Int45](45)
+	regI1[tlb.Int46](46)
+	regI1[tlb.Int47](47)
+	regI1[tlb.Int48](48)
+	regI1[tlb.Int49](49)
+	regI1[tlb.Int50](50)
+	regI1[tlb.Int51](51)
+	regI1[tlb.Int52](52)
+	regI1[tlb.Int53](53)
+	regI1[tlb.Int54](54)
+	regI1[tlb.Int55](55)
+	regI1[tlb.Int56](56)
+	regI1[tlb.Int57](57)
+	regI1[tlb.Int58](58)
+	regI1[tlb.Int59](59)
+	regI1[tlb.Int60](60)
+	regI1[tlb.Int61](61)
+	regI1[tlb.Int62](62)
 	regK[tlb.Bits80]("b80", keyCodec[tlb.Bits80]{
 		parse: func(s string) tlb.Bits80 { var k tlb.Bits80; copy(k[:], h.MustUnHex(s)); return k },
 		show:  func(k tlb.Bits80) string { return hex.EncodeToString(k[:]) }})
@@ -236,13 +351,13 @@ func init() {
 		}})
 
 	h.Register(&h.Prop{ID: "C05", Gen: genC05, Exec: withCells(map[string]h.ExecFn{
-		"hm.minbits": func(a []string) string { return strconv.Itoa(boc.VerifMinBitsRequired(u64c(a[0]))) },
-		"hm.putkeys": func(a []string) string { return dictOf(a).PutKeys(a[2:]) },
-		"hm.build":   func(a []string) string { return dictOf(a).Build(a[2:]) },
-		"hm.decode":  func(a []string) string { return dictOf(a).Decode(a[2]) },
-		"hm.get":     func(a []string) string { return dictOf(a).Get(a[2], a[3:]) },
-		"hm.decput":  func(a []string) string { return dictOf(a).DecPut(a[2], a[3:]) },
-		"hma.decode": exAugDecode,
+		"hm.minbits":      func(a []string) string { return strconv.Itoa(boc.VerifMinBitsRequired(u64c(a[0]))) },
+		"hm.putkeys":      func(a []string) string { return dictOf(a).PutKeys(a[2:]) },
+		"hm.build":        func(a []string) string { return dictOf(a).Build(a[2:]) },
+		"hm.decode":       func(a []string) string { return dictOf(a).Decode(a[2]) },
+		"hm.get":          func(a []string) string { return dictOf(a).Get(a[2], a[3:]) },
+		"hm.decput":       func(a []string) string { return dictOf(a).DecPut(a[2], a[3:]) },
+		"hma.decode":      exAugDecode,
 		"go.hm.roundtrip": func(a []string) string { return dictOf(a).GoRoundtrip(a[0], a[2:]) },
 		"go.hm.spec":      func(a []string) string { return dictOf(a).GoSpec(a[0], a[2], a[3:]) },
 		"go.hm.spec_wc32": func(a []string) string { return dictOf(a).GoSpec(a[0], a[2], a[3:]) },
@@ -1279,6 +1394,9 @@ func shuffled(g *h.G, xs []string) []string {
 func genOneMap(g *h.G) {
 	kt := c05KeyWeights[g.Rng.Intn(len(c05KeyWeights))]
 	vt := []string{"U32", "U32", "B256", "P", "P", "R"}[g.Rng.Intn(6)]
+	if g.Rng.Intn(7) == 0 { // the remaining integer widths (Uint32 values only)
+		kt, vt = u32OnlyKeyTypes[g.Rng.Intn(len(u32OnlyKeyTypes))], "U32"
+	}
 	n := ktWidth(kt)
 	size := pickSize(g)
 	keys, shape := keySet(g, kt, size)
